@@ -303,6 +303,7 @@ def gen_for(prop):
             if T:
                 cs += fault_sweep(r, 11, kind="read", nk=8); cs += walks(r, 60, families=("readfaults",))
         elif prop == "C03":
+            cs += [story_case(r.fork(), ending=r.choice(PAY_ENDINGS), late_extra="any", npieces=1 + i % 3) for i in range(8 * k)]
             for amount in ([1, 1000, 21000, 10**6, 10**9, 10**12, 2**32 - 1, 2**32 + 1, 10**18] if T else [1, 21000, 10**9, 2**32 + 1]):
                 cs += [story_case(r.fork(), ending=r.choice(PAY_ENDINGS), amount=amount, npieces=1 + i % 3) for i in range(6 if T else 3)]
             cs += reject_stories(r, 16 * k); cs += bursts(r, 12 * k)
@@ -310,6 +311,7 @@ def gen_for(prop):
             cs += walks(r, 200 if T else 40)
         elif prop == "C04":
             cs += [story_case(r.fork(), ending="complete", heights=True) for _ in range(60 * k)]
+            cs += [story_case(r.fork(), ending="complete", heights=True, late_extra="low_expiry", npieces=1 + i % 3) for i in range(12 * k)]
             cs += reject_stories(r, 24 * k)
             cs += walks(r, 200 if T else 40, families=("default", "slow"))
         elif prop == "C06":
